@@ -26,6 +26,7 @@ type c10Scenario struct {
 	FloodOff bool      `json:"flood_setting"` // Config.Flood = true from the start: no line may be delayed
 	ToggleAt int       `json:"toggle_at"`     // >=0: Config.Flood is set to true before this line (after the queue drained)
 	OffAt    int       `json:"off_at"`        // > ToggleAt: Config.Flood is set back to false before this line; -1 never
+	ReconnectAt int    `json:"reconnect_at"`  // >=0: before this line the client is closed and connects again at once (the penalty is the client's, not the connection's)
 	Lines    []c10Line `json:"lines"`
 
 	createdLo, createdHi time.Time // set by the run: when the client (and with it the penalty clock) was created
@@ -48,10 +49,22 @@ const c10Tol = 250 * time.Millisecond    // stated tolerance of the window bound
 
 func genC10(t *rapid.T, maxLines int, idx int) *c10Scenario {
 	// the composition of a batch is fixed: every sixth scenario has Flood set, every sixth toggles it
-	sc := &c10Scenario{ToggleAt: -1, OffAt: -1, FloodOff: idx%6 == 5}
+	sc := &c10Scenario{ToggleAt: -1, OffAt: -1, ReconnectAt: -1, FloodOff: idx%6 == 5}
 	n := rapid.IntRange(3, maxLines).Draw(t, "nlines")
 	for i := 0; i < n; i++ {
 		sc.Lines = append(sc.Lines, c10Line{Len: rapid.SampledFrom([]int{0, 1, 50, 120, 300, 500}).Draw(t, "len"), GapMS: rapid.SampledFrom([]int{0, 0, 0, 500, 2500, 6000}).Draw(t, "gap_ms")})
+	}
+	if idx%6 == 2 {
+		// build a penalty, drop the connection, reconnect at once: registration and what follows are
+		// still charged against the same penalty
+		sc.Lines = nil
+		m := rapid.IntRange(3, 4).Draw(t, "burst")
+		for i := 0; i < m; i++ {
+			sc.Lines = append(sc.Lines, c10Line{Len: rapid.SampledFrom([]int{50, 120}).Draw(t, "len")})
+		}
+		sc.ReconnectAt = m
+		sc.Lines = append(sc.Lines, c10Line{Len: 1})
+		return sc
 	}
 	if idx%6 == 3 || idx%6 == 4 {
 		if idx%6 == 4 {
@@ -93,12 +106,33 @@ func runC10One(sc *c10Scenario) ([]c10Obs, *Violation) {
 	}
 	conn := tc.conn()
 	total := 2
+	regStarts := []time.Time{regStart}
+	disc := make(chan struct{}, 2)
+	tc.C.HandleFunc(client.DISCONNECTED, func(*client.Conn, *client.Line) { disc <- struct{}{} })
 	waitWire := func(n int) bool {
 		return conn.WaitWritten(func(w string) bool { return strings.Count(w, "\r\n") >= n }, 5*time.Minute)
 	}
 	for k, l := range sc.Lines {
 		if l.GapMS > 0 {
 			time.Sleep(time.Duration(l.GapMS) * time.Millisecond)
+		}
+		if k == sc.ReconnectAt {
+			if !waitWire(total) {
+				return nil, violationf("C10", "queue did not drain before the reconnect")
+			}
+			go tc.C.Close()
+			select {
+			case <-disc:
+			case <-time.After(stallTimeout()):
+				return nil, violationf("C10", "no DISCONNECTED before the reconnect")
+			}
+			waitCond(stallTimeout(), func() bool { n, _, _ := connGoroutines(tc.C); return n == 0 })
+			regStarts = append(regStarts, time.Now())
+			if err := tc.connect(); err != nil {
+				return nil, violationf("C10", "reconnect: %v", err)
+			}
+			conn = tc.conn()
+			total = 2
 		}
 		if k == sc.ToggleAt {
 			if !waitWire(total) {
@@ -124,13 +158,15 @@ func runC10One(sc *c10Scenario) ([]c10Obs, *Violation) {
 		return nil, violationf("C10", "only %d of %d lines reached the wire within 5 minutes", strings.Count(conn.Written(), "\r\n"), total)
 	}
 	var obs []c10Obs
-	for _, w := range conn.Writes() {
-		for _, l := range strings.Split(strings.TrimSuffix(w.Data, "\r\n"), "\r\n") {
-			o := c10Obs{line: l, chars: len(l), wire: w.At, enq: regStart, exempt: sc.FloodOff}
-			if e, ok := enq[l]; ok {
-				o.enq, o.exempt = e, exempt[l]
+	for ci, cn := range tc.S.Conns() {
+		for _, w := range cn.Writes() {
+			for _, l := range strings.Split(strings.TrimSuffix(w.Data, "\r\n"), "\r\n") {
+				o := c10Obs{line: l, chars: len(l), wire: w.At, enq: regStarts[ci%len(regStarts)], exempt: sc.FloodOff}
+				if e, ok := enq[l]; ok {
+					o.enq, o.exempt = e, exempt[l]
+				}
+				obs = append(obs, o)
 			}
-			obs = append(obs, o)
 		}
 	}
 	return obs, nil
